@@ -149,6 +149,16 @@ structure RawCfg where
   batch    : Int      -- maxUpkeepBatchSize as written in the off-chain config
   gasLimit : UInt32   -- gasLimitPerReport
   overhead : UInt32   -- gasOverheadPerUpkeep
+  -- the remaining fields of `config.OffchainConfig`.  `Report` and `Observation` read NONE of them
+  -- (`defaults` drops them): in particular `reportBlockLag` is decoded and validated but is not
+  -- subtracted from the median at HEAD.  They configure the coordinator (lock-out window, minimum
+  -- confirmations of a perform log) and the polling observer (sample ratio, per-head sampling window).
+  reportBlockLag       : Int := 0
+  performLockoutWindow : Int := 0
+  targetInRounds       : Int := 0
+  samplingJobDuration  : Int := 0
+  minConfirmations     : Int := 0
+  mercuryLookup        : Bool := false
 deriving DecidableEq, Repr
 
 structure Cfg where
@@ -380,9 +390,13 @@ def stageIds : List HeadRes → List (Option Bytes)
           | some (_, id) => some id
           | none => none) :: stageIds rs
 
-/-- `processLatestHead`.  The sample ratio of the harness configuration (0.98 for
-targetProbability 0.99999, one round, n-f = 3) gives a sample of `round(0.98·active)`
-keys, which is empty exactly when `active = 0`; then nothing is staged. -/
+/-- `processLatestHead`.  The sample ratios of the harness configurations (targetProbability /
+targetInRounds pairs with n-f = 3 whose ratio is ≥ 0.5, e.g. 0.98 for the default 0.99999 in one
+round) give a sample of `round(ratio·active)` keys, which is empty exactly when `active = 0`; then
+nothing is staged.  The result loop does not look at the sampling context: a head whose sampling
+window (`samplingJobDuration`) runs out while results are being staged is still staged completely
+and advanced (only `GetActiveUpkeepIDs` / `CheckUpkeep` failing, `srcErr` / `runErr`, abandon a head,
+and they do so before anything is staged). -/
 def processHead (st : Stager) (h : Head) : Stager :=
   if h.srcErr then st
   else if h.active = 0 then st
